@@ -138,7 +138,17 @@ CHECKS = {
               "other suffixes, zip member naming; advertised_formats is stated on the key set of _known_compressions TRANSLATED "
               "from the source on every run. Tie: exhaustive fault injection over every injection point x format on the real code "
               "in a child process; the model and the certified clause checker are evaluated in Coq on the same cases and the "
-              "stored files are opened with gzip/bz2/lzma/zipfile."),
+              "stored files are opened with gzip/bz2/lzma/zipfile. "
+              "23 theorems in all. For several blocks open at the same time a second model puts temporary entries into the same file "
+              "system as the user's files, with names from an oracle, and splits blocks at their yield: nested_blocks_independent - "
+              "for every list of compress / decompress blocks and every interleaving of entries, reads / writes and exits (with or "
+              "without exceptions in the bodies), given an oracle returning names that do not exist (what NamedTemporaryFile / "
+              "TemporaryDirectory provide) and caller names outside its range, each block observes exactly what it observes alone; "
+              "nested_blocks_no_debris - afterwards every path that is not a compress target, archives and bystanders of any name "
+              "included, is byte for byte what it was; the hypothesis is shown necessary by a refutation for names derived from the "
+              "archive's stem, and both models are proved to agree on one block. The tie additionally runs 389 (thorough 3269) "
+              "histories of 1-4 context managers entered, used and left by hand in nested, overlapping and random order on archives "
+              "with equal stems, shared temporary directories and bystander files, judged in Coq against the ideal history."),
         note=COMMON_NOTE + " Standard-library codecs and tempfile/os.unlink behaviour are hypotheses exercised on every case; copy chunks above 100 MiB not exercised.",
         technique="Coq proof (case analysis over all fault points of the step model, induction over copy blocks) on a model whose format table is translated from the source + vm_compute correspondence with exhaustive fault injection",
         design="5/C12"),
@@ -244,25 +254,21 @@ CHECKS = {
         technique="Coq proof (NoDup/Permutation refinement to the brute-force collocation; invariants of the bundling loop; queue transition system over all interleavings with liveness by an explicit scheduler and a decreasing measure, exact characterisation of weaker parents) + end-to-end differential runs with schedule perturbations and queue traces evaluated in Coq",
         design="5/C05"),
     "C11": dict(
-        text=("23 theorems (closed under the global context) about an executable model of FileSet write / read / collect / find / move "
-              "/ copy / convert / delete on a disk = finite map path -> content, file names from the proved C02 renderer/parser and "
-              "compression decided as in files/utils.py: move_conserves (with pairwise distinct fresh target names every selected "
-              "file ends under exactly the name the target template generates from its own times and placeholder values, with the "
-              "same bytes or the bytes recoded through both handlers, originals removed iff not copy, every other path unchanged), "
-              "progress, write_read and convert_reads_back (read_args / write_args / post_reader and (de)compression as "
-              "composition), written_is_found for every way of spelling the end that C02 proves - complete end, only sub-day end "
-              "fields (found under exactly [s, e] whenever 0 <= e - s < the unit above the coarsest spelt end field, under the "
-              "rolled period otherwise, never under another one), no end fields (time_coverage) -, selection_exact, delete_exact, "
-              "dry_run_noop, empty_selection_noop (files=[] selects nothing), read_with_args / write_with_args / calls_keep_object / "
-              "args_do_not_stick (a call's own keyword arguments override the defaults for that call only; the object is unchanged "
-              "over every history of calls), and frame theorems lifted by induction to all operation histories. Handlers (pickle / "
-              "JSON user handlers, typhon CSV, typhon NetCDF4) and codecs are Section variables assumed only to round-trip; their "
-              "fidelity is exercised, not proved. Tie: random plus directed (year-end) histories on real FileSets in child "
-              "processes; after every operation the whole tree is canonicalised independently of typhon and compared with the "
-              "model's step evaluated inside Coq; values read back are compared with what was written; every written file is looked "
-              "up with find() and must be reported under the period the theorem prescribes; the default argument dictionaries of "
-              "every object are observed after every call. Not proved: end-field sets outside C02's three kinds; independence of "
-              "worker scheduling (C10)."),
+        text=("27 theorems (closed under the global context) about an executable model of FileSet write / read / collect / find / move / "
+              "copy / convert / delete on a disk = finite map path -> content, names from the proved C02 renderer / parser, compression "
+              "decided as in files/utils.py: move_conserves (core), progress, write_read, convert_reads_back, written_is_found for "
+              "every end spelling C02 proves, delete_exact, dry_run_noop, empty_selection_noop, read / write_with_args, "
+              "calls_keep_object, args_do_not_stick, frame theorems lifted to all histories, and move_failure_conserves: when the "
+              "conversion of a move fails for some selected files (the user's function raises, the target handler cannot store the "
+              "object), then for ANY set of files the parallel workers got through, every selected file is either moved (converted "
+              "content under its target name, original removed unless copy) or untouched at its source with nothing under its target "
+              "name, a failing file is always of the second kind, and no other path changes (move_given_sound is the boolean form "
+              "evaluated on the observed tree, move_sequential the one-worker case). Tie: random plus directed histories (year end, "
+              "removed-then-asked, single-file filesets, failing moves, handlers built from bound methods of three signatures) on real "
+              "FileSets in child processes; per-step tree listings canonicalised independently of typhon and compared with the "
+              "model's step evaluated in Coq; the object's default dictionaries observed after every call; after a move that raised, "
+              "the observed tree must equal the model's move of exactly the files that arrived; a file removed by the object's own "
+              "delete() / move() must never be handed out again by fileset[t]."),
         note=COMMON_NOTE + " find() is taken as its brute-force filter (C01); worker pools sequentialised (C10); moves whose target names collide are outside the hypotheses and not compared; NetCDF4 only in the thorough tier, single-threaded, in a child process.",
         technique="Coq proof (induction over the selected files, over operation histories and over call histories on a finite-map disk, reuse of the C02 round-trip theorems for all three end kinds) + vm_compute correspondence of per-step tree listings and of laws evaluated on the implementation's output from child-process runs of the real FileSet",
         design="5/C11"),
@@ -288,19 +294,23 @@ CHECKS = {
         technique="Coq proof of a certified relational checker (closest_ok <-> ClosestSpec), of the algorithm model against the brute-force specification, and of its composition with the algorithmic model of FileSet.find (C01) on directory trees + differential execution of the real FileSet on generated and directed directory trees, judged inside Coq (vm_compute)",
         design="5/C16"),
     "C01": dict(
-        text=("20 theorems (closed under the global context): the search algorithm of FileSet.find (end - 1 us, directory pruning "
-              "with one-period look-back, truncation to the resolution of all levels parsed so far, year-only fallback, closed overlap, "
+        text=("23 theorems (closed under the global context): the search algorithm of FileSet.find (end - 1 us, directory pruning "
+              "with a one-period look-back clamped at datetime.min, truncation to the resolution of all levels parsed so far, year-only fallback, closed overlap, "
               "exclusion through the C03 interval tree, white/black lists, stable sort, count and time bundles, `in`, len, "
               "single-file filesets) is modelled in Gallina and proved equal to sort-after-filter for every layout without "
               "placeholder gaps, every population of valid files placed in the directory of their start time and no longer than one "
-              "period of the finest level, and every well-formed period (find_sound_complete: Sorted, Permutation of the filter, "
+              "period of the finest level, and EVERY well-formed period - there is no longer a hypothesis on the distance of the start "
+              "from datetime.min (find_sound_complete: Sorted, Permutation of the filter, "
               "equal to find_spec); find_each_once, semi_open, exclusion_exact, layout_independent, contains_agrees, len_agrees, both "
               "bundle partitions and the single-file cases; the sort is proved stable and the result is the unique key-sorted "
               "sequence that keeps, coverage by coverage, the order of the directory walk (find_sorted_stable, find_result_unique, "
               "find_stable_any_input); time bundles are exactly the non-empty bins [o + k w, o + (k+1) w), o = midnight of the first "
-              "file's day, in increasing order, for every width w > 0 (bin_edges, bundle_freq_bins); the pre-fix algorithm is refuted "
-              "in Coq (find_asis_refuted). Tie: the real FileSet on generated directory trees written with the harness's own "
-              "renderer (136 quick / 1830 thorough incl. 160 fsspec zip), compared with the specification inside the hypotheses (a "
+              "file's day, in increasing order, for every width w > 0 (bin_edges, bundle_freq_bins); the clamp is max(datetime.min, start - P) (lookback_clamped); both "
+              "earlier versions of the code are refuted in Coq on inputs meeting every hypothesis: chunk-local resolution "
+              "(find_asis_refuted) and the unclamped look-back, which raised OverflowError exactly for 0 < start - datetime.min < P "
+              "(lookback_overflow_asis_exact, lookback_overflow_asis_refuted). Tie: the real FileSet on generated directory trees written with the harness's own "
+              "renderer (152 quick / 1854 thorough incl. fsspec zip, and a directed stream of 8 layouts with files in years 1-2 asked for "
+              "periods starting 1 us ... P + 1 day after datetime.min), compared with the specification inside the hypotheses (a "
               "mismatch is a failing input) and with the algorithmic model outside them; ties of (t0, t1) are checked against the "
               "unsorted stream of the same FileSet, every time-bundle query (widths 30min ... 2D) bin by bin with the Coq edges and "
               "with pandas' own group labels."),
